@@ -215,6 +215,10 @@ def tagread(run, fx):
         raise AnalysisBroken('gr_str_to_tag: expected exactly one switch, found %d (rule knows the switch form only)' % len(sw))
     sw = sw[0]
     cond = fn.strip_all_casts(fn.term_cond(sw))
+    hops = 0
+    while cond['k'] == 'DeclRefExpr' and cond.get('vid') in fn.const_init and hops < 4:     # `const size_t n = min(strlen(str), 4); switch (n)`
+        cond = fn.strip_all_casts(fn.N(fn.const_init[cond['vid']]))
+        hops += 1
     sel = _selector(fn, cond, strv)
     if sel is None:
         raise AnalysisBroken('gr_str_to_tag: switch selector has an unknown shape: %s' % fn.render(cond))
